@@ -198,6 +198,7 @@ type HandlerCall struct {
 	AfterReturn  bool
 	Verdict      error
 	Returned     bool
+	Kept         []keptVal
 	Skipped      bool // refused, then stepped over by the application (counts as consumed)
 	release      chan error
 	// packets of the attempt's dump stream completely delivered when the call happened
